@@ -82,6 +82,24 @@ svc = service("UniversalService", [
     endpoint("optBinary", "GET", "/u/optbinary", [arg("present", B, "query", "present")], returns=opt(prim("BINARY"))),
     endpoint("binAlias", "POST", "/u/body/binalias", [arg("body", r("BinAlias"), "body")], returns=r("BinAlias")),
     endpoint("smallBody", "POST", "/u/body/small", [arg("body", S, "body")], returns=S, tags=["server-limit-request-size: 8b"]),
+    endpoint("limitPlain", "POST", "/u/limit/limitPlain", [arg("body", S, "body")], returns=S, tags=["server-limit-request-size: 77"]),
+    endpoint("limitK", "POST", "/u/limit/limitK", [arg("body", S, "body")], returns=S, tags=["server-limit-request-size: 3k"]),
+    endpoint("limitKi", "POST", "/u/limit/limitKi", [arg("body", S, "body")], returns=S, tags=["server-limit-request-size: 3 ki"]),
+    endpoint("limitMb", "POST", "/u/limit/limitMb", [arg("body", S, "body")], returns=S, tags=["server-limit-request-size: 3 mb"]),
+    endpoint("limitM", "POST", "/u/limit/limitM", [arg("body", S, "body")], returns=S, tags=["server-limit-request-size: 5M"]),
+    endpoint("limitMib", "POST", "/u/limit/limitMib", [arg("body", S, "body")], returns=S, tags=["server-limit-request-size: 1MiB"]),
+    endpoint("limitMi", "POST", "/u/limit/limitMi", [arg("body", S, "body")], returns=S, tags=["server-limit-request-size: 2 mi"]),
+    endpoint("limitG", "POST", "/u/limit/limitG", [arg("body", S, "body")], returns=S, tags=["server-limit-request-size: 1g"]),
+    endpoint("limitGb", "POST", "/u/limit/limitGb", [arg("body", S, "body")], returns=S, tags=["server-limit-request-size: 2 GB"]),
+    endpoint("limitGib", "POST", "/u/limit/limitGib", [arg("body", S, "body")], returns=S, tags=["server-limit-request-size: 2 GiB"]),
+    endpoint("limitGi", "POST", "/u/limit/limitGi", [arg("body", S, "body")], returns=S, tags=["server-limit-request-size: 1gi"]),
+    endpoint("limitT", "POST", "/u/limit/limitT", [arg("body", S, "body")], returns=S, tags=["server-limit-request-size: 1t"]),
+    endpoint("limitTb", "POST", "/u/limit/limitTb", [arg("body", S, "body")], returns=S, tags=["server-limit-request-size: 1tb"]),
+    endpoint("limitTib", "POST", "/u/limit/limitTib", [arg("body", S, "body")], returns=S, tags=["server-limit-request-size: 1 TiB"]),
+    endpoint("limitTi", "POST", "/u/limit/limitTi", [arg("body", S, "body")], returns=S, tags=["server-limit-request-size: 2ti"]),
+    endpoint("limitB", "POST", "/u/limit/limitB", [arg("body", S, "body")], returns=S, tags=["server-limit-request-size: 15b"]),
+    endpoint("kbBody", "POST", "/u/body/kb", [arg("body", S, "body")], returns=S, tags=["server-limit-request-size: 1 kb"]),
+    endpoint("kibBody", "POST", "/u/body/kib", [arg("body", S, "body")], returns=S, tags=["other-tag", "server-limit-request-size:2Ki"]),
     endpoint("safeMix", "GET", "/u/safe/{safePath}/{unsafePath}", [
         arg("safePath", S, "path", safety="SAFE"),
         arg("unsafePath", S, "path"),
